@@ -160,7 +160,9 @@ func (e *enc) evalRaw(x SExpr, env *Env) SVal {
 		// package-qualified constant?
 		if id, ok := n.x.(*SIdent); ok {
 			if _, isVar := env.bound[id.name]; !isVar {
-				if pk := e.importedPkg(env, id.name); pk != nil {
+				// (a local may shadow an imported package name: only take the package reading when
+				// the package really has that object)
+				if pk := e.importedPkg(env, id.name); pk != nil && pk.Scope().Lookup(n.name) != nil {
 					return e.pkgObject(pk, n.name, env)
 				}
 			}
@@ -705,6 +707,27 @@ func (e *enc) evalCall(n *SCall, env *Env) SVal {
 			r = fmt.Sprintf("(strcat %s %s)", r, arg(i).t)
 		}
 		return SVal{t: r, sort: "Str", typ: types.Typ[types.String]}
+	case "as":
+		// as(x, T): the value of (package-level) type T held by the interface value x
+		v := arg(0)
+		id, ok := n.args[1].(*SIdent)
+		if !ok || v.sort != "Iface" {
+			env.fail("as(ifaceValue, TypeName) expected")
+		}
+		var tt types.Type
+		if env.tpkg != nil {
+			if obj, ok := env.tpkg.Scope().Lookup(id.name).(*types.TypeName); ok {
+				tt = obj.Type()
+			}
+		}
+		if tt == nil {
+			env.fail("unknown type %s", id.name)
+		}
+		tid := e.typeID(tt)
+		s := sortOf(tt)
+		un := fmt.Sprintf("ival_%d", tid)
+		e.declareFun(un, fmt.Sprintf("(Iface) %s", s))
+		return SVal{t: fmt.Sprintf("(%s %s)", un, v.t), typ: tt, sort: s}
 	case "iface":
 		// iface(x): the interface value holding the typed value x
 		v := arg(0)
@@ -724,6 +747,17 @@ func (e *enc) evalCall(n *SCall, env *Env) SVal {
 			e.assertOnce(fmt.Sprintf("(and (not (= %s inil)) (= (itype %s) %d) (= (%s %s) %s))", r, r, id, un, r, v.t))
 		}
 		return SVal{t: r, sort: "Iface"}
+	case "deref":
+		// deref(p): the value stored at pointer p
+		v := arg(0)
+		if v.typ == nil {
+			env.fail("deref() of untyped value")
+		}
+		pt, ok := v.typ.Underlying().(*types.Pointer)
+		if !ok {
+			env.fail("deref() of non-pointer %s", v.typ)
+		}
+		return SVal{t: e.loadValue(env.st, v.t, pt.Elem()), typ: pt.Elem(), sort: sortOf(pt.Elem())}
 	case "isnil":
 		v := arg(0)
 		if v.sort == "Slice" {
